@@ -1621,4 +1621,140 @@ theorem exists_sim {s : State} (h : Inv s) : ∃ m : RefMap.State, Sim s m := by
         have := (bounds_exact h hemp).2.2 k (by rw [hg]; rfl)
         omega
 
+/-! ### iter_mut -/
+
+theorem mapRing_spec (f : Nat → Nat → Nat) : ∀ (rem : Nat) (l : List (Option Nat)) (pn : Nat),
+    (mapRing f l pn rem).length = l.length ∧
+    ∀ t, (mapRing f l pn rem).getD t none =
+      if t < rem then (l.getD t none).map (f (pn + t)) else l.getD t none := by
+  intro rem
+  induction rem with
+  | zero =>
+    intro l pn
+    have e : mapRing f l pn 0 = l := by cases l <;> rfl
+    rw [e]
+    exact ⟨rfl, fun t => by simp⟩
+  | succ n ih =>
+    intro l pn
+    cases l with
+    | nil =>
+      have e : mapRing f [] pn (n + 1) = [] := rfl
+      rw [e]
+      refine ⟨rfl, fun t => ?_⟩
+      split <;> rfl
+    | cons x r =>
+      obtain ⟨i1, i2⟩ := ih r (pn + 1)
+      cases x with
+      | none =>
+        have e : mapRing f (none :: r) pn (n + 1) = none :: mapRing f r (pn + 1) n := rfl
+        rw [e]
+        refine ⟨by simp [i1], fun t => ?_⟩
+        cases t with
+        | zero => simp
+        | succ t =>
+          simp only [List.getD_cons_succ]
+          rw [i2 t, show pn + 1 + t = pn + (t + 1) by omega]
+          by_cases ht : t < n
+          · have : t + 1 < n + 1 := by omega
+            rw [if_pos ht, if_pos this]
+          · have : ¬ t + 1 < n + 1 := by omega
+            rw [if_neg ht, if_neg this]
+      | some v =>
+        have e : mapRing f (some v :: r) pn (n + 1) = some (f pn v) :: mapRing f r (pn + 1) n := rfl
+        rw [e]
+        refine ⟨by simp [i1], fun t => ?_⟩
+        cases t with
+        | zero => simp
+        | succ t =>
+          simp only [List.getD_cons_succ]
+          rw [i2 t, show pn + 1 + t = pn + (t + 1) by omega]
+          by_cases ht : t < n
+          · have : t + 1 < n + 1 := by omega
+            rw [if_pos ht, if_pos this]
+          · have : ¬ t + 1 < n + 1 := by omega
+            rw [if_neg ht, if_neg this]
+
+theorem unrotate_getD {r : List (Option Nat)} {i d : Nat} (hi : i < r.length) (hd : d < r.length) :
+    (r.drop (r.length - i) ++ r.take (r.length - i)).getD ((i + d) % r.length) none = r.getD d none := by
+  simp only [List.getD_eq_getElem?_getD]
+  rw [List.getElem?_append, List.length_drop, ring_cases hi hd]
+  by_cases h : i + d < r.length
+  · rw [if_pos h]
+    have h2 : ¬ i + d < r.length - (r.length - i) := by omega
+    rw [if_neg h2, List.getElem?_take]
+    have h3 : i + d - (r.length - (r.length - i)) < r.length - i := by omega
+    rw [if_pos h3]
+    congr 2; omega
+  · rw [if_neg h]
+    have h2 : i + d - r.length < r.length - (r.length - i) := by omega
+    rw [if_pos h2, List.getElem?_drop]
+    congr 2; omega
+
+theorem iterMut_spec {s : State} (h : Inv s) (f : Nat → Nat → Nat) :
+    Inv (iterMut s f) ∧ ∀ k, PnMap.get (iterMut s f) k = (PnMap.get s k).map (f k) := by
+  cases h with
+  | empty hidx hlen hnone =>
+    have hemp : isEmpty s = true := by simp [isEmpty, hidx]
+    have e : iterMut s f = s := by unfold iterMut; simp only [hemp, if_true]
+    rw [e]
+    exact ⟨Inv.empty hidx hlen hnone, fun k => by rw [get_empty hemp]; rfl⟩
+  | full wf hs he =>
+    have hord := wf.ord
+    have hspan := wf.span
+    have hidx := wf.idx
+    have hrl : (ring s).length = s.values.length := by
+      simp only [ring, List.length_append, List.length_drop, List.length_take]; omega
+    obtain ⟨m1, m2⟩ := mapRing_spec f (s.endPn - s.start + 1) (ring s) s.start
+    generalize hr : mapRing f (ring s) s.start (s.endPn - s.start + 1) = r at m1 m2
+    have hrlen : r.length = s.values.length := by rw [m1, hrl]
+    have e : iterMut s f = { s with values := r.drop (s.values.length - s.index) ++ r.take (s.values.length - s.index) } := by
+      unfold iterMut; simp only [wf.notEmpty, Bool.false_eq_true, if_false, hr]
+    rw [e]
+    generalize hs' : ({ s with values := r.drop (s.values.length - s.index) ++ r.take (s.values.length - s.index) } : State) = s'
+    have hvals : s'.values = r.drop (s.values.length - s.index) ++ r.take (s.values.length - s.index) := by rw [← hs']
+    have hidx' : s'.index = s.index := by rw [← hs']
+    have hstart : s'.start = s.start := by rw [← hs']
+    have hend : s'.endPn = s.endPn := by rw [← hs']
+    have hlen : s'.values.length = s.values.length := by
+      rw [hvals]; simp only [List.length_append, List.length_drop, List.length_take]; omega
+    have hring : ∀ d, d < s.values.length → (ring s).getD d none = lslot s d := by
+      intro d hd
+      unfold lslot slot ring
+      simp only [List.getD_eq_getElem?_getD]
+      rw [ring_getElem? hidx hd]
+    have hls : ∀ d, d < s.values.length →
+        lslot s' d = if d < s.endPn - s.start + 1 then (lslot s d).map (f (s.start + d)) else lslot s d := by
+      intro d hd
+      unfold lslot slot
+      rw [hlen, hidx', hvals]
+      have := unrotate_getD (r := r) (i := s.index) (d := d) (by omega) (by omega)
+      rw [hrlen] at this
+      rw [this, m2 d, hring d hd]
+      rfl
+    have wf' : WF s' := by
+      refine ⟨by rw [hlen, hidx']; exact hidx, by rw [hstart, hend]; exact hord,
+        by rw [hstart, hend, hlen]; exact hspan, ?_⟩
+      intro d a b
+      rw [hstart, hend] at a
+      rw [hlen] at b
+      rw [hls d b]
+      have : ¬ d < s.endPn - s.start + 1 := by omega
+      rw [if_neg this]
+      exact wf.outside d a b
+    refine ⟨Inv.full wf' ?_ ?_, ?_⟩
+    · rw [hls 0 (by omega), if_pos (by omega)]
+      cases hx : lslot s 0 with
+      | none => rw [hx] at hs; cases hs
+      | some v => rfl
+    · rw [hstart, hend, hls _ (by omega), if_pos (by omega)]
+      cases hx : lslot s (s.endPn - s.start) with
+      | none => rw [hx] at he; cases he
+      | some v => rfl
+    · intro k
+      rw [get_eq wf', get_eq wf, hstart, hend]
+      by_cases hk : s.start ≤ k ∧ k ≤ s.endPn
+      · rw [if_pos hk, if_pos hk, hls _ (by omega), if_pos (by omega)]
+        rw [show s.start + (k - s.start) = k by omega]
+      · rw [if_neg hk, if_neg hk]; rfl
+
 end Quic.Proofs.Lemmas.PnMap
